@@ -325,11 +325,12 @@ def run_property(pid: str, tier: str = "quick", seed: int = 0) -> int:
         return finish(3, f"solver front-end errors on {len(by['error'])} obligation(s): {results[by['error'][0].key]['model'][:300]}")
     if vac:
         return finish(3, f"contradictory assumptions on paths of {vac}")
-    if tier == "thorough" and not violations and (VERIF / "replay" / f"{pid}.py").exists():
-        # thorough tier: besides both solvers on every obligation, the property's scenario bank is run on the real
-        # code as an independent bounded cross-check (never counted as proved; a confirmed scenario is a violation)
+    if not violations and os.environ.get("PYVC_NO_BANK") != "1" and (VERIF / "replay" / f"{pid}.py").exists():
+        # besides the deductive part, the property's scenario bank is run on the real code as an independent bounded cross-check
+        # (both tiers; the thorough tier runs its deep variant).  It is never counted as proved; a confirmed scenario is a
+        # violation with a concrete input.  It is what notices a change in code that no contract of this property reaches.
         t1 = time.time()
-        rp = run_replay(pid, {"obligation": "__bounded__", "path": [], "model": {}, "info": {}, "seed": seed, "deep": True}, timeout=1500)
+        rp = run_replay(pid, {"obligation": "__bounded__", "path": [], "model": {}, "info": {}, "seed": seed, "deep": tier == "thorough"}, timeout=1500)
         ev["coverage"]["scenario_bank"] = {"label": "bounded (never counted as proved)", "confirmed": bool(rp.get("confirmed")), "tried": rp.get("tried"),
                                            "reason": rp.get("reason"), "wall_s": round(time.time() - t1, 1)}
         if rp.get("confirmed"):
@@ -337,7 +338,7 @@ def run_property(pid: str, tier: str = "quick", seed: int = 0) -> int:
             rpath.write_text(json.dumps({"obligation": f"{pid}/scenario-bank", "replay": rp}, indent=1, default=str))
             print(f"VIOLATION property={pid} replay={rpath}")
             ev["violations"] += 1
-            return finish(1, "violation found by the scenario bank (bounded cross-check of the thorough tier)")
+            return finish(1, "violation found by the scenario bank (bounded cross-check on the real code)")
     if tier == "thorough" and spec.bounded:
         bres = []
         for (name, fn) in spec.bounded:
